@@ -13,6 +13,9 @@
    renamings as permutations of concrete identifiers.                                  *)
 EXTENDS Ontology, Json
 CONSTANTS Depth, Canon,
+          EmitOneIn, \* simulation: TLC evaluates invariants on every successor it generates,
+                     \* not only the chosen one; print each full-length history with
+                     \* probability 1/EmitOneIn (1 = always)
           Cover   \* TRUE: emit the history of every transition of the state graph (use VIEW GView)
 VARIABLES hist, k      \* k: resources 1..k have been mentioned
 gvars == <<vars, hist, k>>
@@ -67,7 +70,9 @@ GNext ==
                \/ DeleteInOfType(w, r, ty) /\ Log("delin", w, r, ty, 0, {}, Max(k, r))
 GInit == Init /\ hist = <<>> /\ k = 0
 GSpec == GInit /\ [][GNext]_gvars
-Emit == Cover \/ Len(hist) # Depth \/ PrintT(<<"HIST", ToJson(hist)>>)
+Emit == \/ Cover \/ Len(hist) # Depth
+        \/ (EmitOneIn > 1 /\ RandomElement(1..EmitOneIn) # 1)
+        \/ PrintT(<<"HIST", ToJson(hist)>>)
 \* transition cover: with this VIEW every abstract state is expanded once, from the
 \* first (shortest) history that reached it, and Log prints one history per transition
 GView == <<SeqView, k>>
